@@ -373,6 +373,18 @@ let () =
                           else show_res r)
        | ["parse"; sp] ->
            print_endline (show_res (parse_show (a_spellings (parse_arg sp))))
+       | [m; "assert_consistent"] when String.length m > 1 && m.[0] = 'a' ->
+           let m = nat_of_int (int_of_string (String.sub m 1 (String.length m - 1))) in
+           let (w', r) = astep_consistent !aworld m in
+           aworld := w';
+           print_endline (if !full then show_res r ^ "\t" ^ show_adigest (adigest (aworld_get w' m))
+                          else show_res r)
+       | [m; "assert_consistent"] ->
+           let m = nat_of_int (int_of_string m) in
+           let (w', r) = step_consistent !world m in
+           world := w';
+           print_endline (if !full then show_res r ^ "\t" ^ show_digest (digest (world2_get w' m))
+                          else show_res r)
        | [m; "json_dump"; r; vo] when String.length m > 1 && m.[0] = 'a' ->
            let m = nat_of_int (int_of_string (String.sub m 1 (String.length m - 1))) in
            let (w', r) = astep_json_dump !aworld m (a_hroots (parse_arg r)) (a_list a_nat (parse_arg vo)) in
